@@ -8,7 +8,8 @@ From Coq Require Import ZArith List String Bool Lia.
 Import ListNotations.
 Require Import Verif.lib.PyLite Verif.gen.BananaGen Verif.gen.SlicersGen Verif.lib.Token Verif.lib.TokenProofs
         Verif.lib.Obj Verif.lib.ObjProofs Verif.lib.ObjDefer Verif.lib.ObjDeferProofs
-        Verif.lib.ObjChunks Verif.lib.ObjVocab Verif.lib.ObjCanon Verif.lib.SendHeap Verif.lib.SendHeapProofs Verif.lib.SendHeapE2E.
+        Verif.lib.ObjChunks Verif.lib.ObjVocab Verif.lib.ObjCanon Verif.lib.SendHeap Verif.lib.SendHeapProofs Verif.lib.SendHeapE2E
+        Verif.lib.ObjKeepalive Verif.lib.ObjKeepaliveProofs.
 Local Open Scope Z_scope.
 
 (* "Any object graph built from the supported pass-by-value types ... including graphs with shared sub-objects and
@@ -151,6 +152,47 @@ Print Assumptions C01_end_to_end_any_chunking_deferred_partial.
 Theorem C01_chunks_decode : forall cs ts, decode (List.concat cs) = (ts, EndClean) -> forallb no_err ts = true -> tokens_of_chunks cs = ts.
 Proof. exact chunks_decode. Qed.
 Print Assumptions C01_chunks_decode.
+
+(* "no matter how the byte stream is split into packets" ON A CONNECTION WITH KEEPALIVES: PING / PONG tokens (written by
+   keepaliveTimerFired and by the peer's handleData into the same byte stream) are not part of any object.  (a) In EVERY state
+   of the receiver -- any stack of open unslicers, index phase of an OPEN sequence or not -- a stream and the same stream
+   without its keepalive tokens end in the same state, on the pointer machine and on the Deferred-level machine; *)
+Theorem C01_keepalive_invisible : forall ts st, run ts st = run (strip_ka ts) st.
+Proof. exact run_strip_ka. Qed.
+Print Assumptions C01_keepalive_invisible.
+Theorem C01_keepalive_invisible_deferred : forall ts st, drun ts st = drun (strip_ka ts) st.
+Proof. exact drun_strip_ka. Qed.
+Print Assumptions C01_keepalive_invisible_deferred.
+(* (b) end to end: w is ANY wire stream whose other tokens are the sender's tokens of t (keepalive tokens of either kind, with any
+   numbers, at any token boundaries, any number of them); however the bytes of w are split into packets -- keepalive token alone,
+   glued to the bytes behind it, byte by byte -- the delivered graph is the graph that was sent; *)
+Theorem C01_keepalive_end_to_end : forall scoped n t w bs cs,
+  wf_obj_wide scoped n t = true -> strip_ka w = slice n t -> forallb wf_token w = true -> encode_stream w = Ok bs ->
+  List.concat cs = bs ->
+  unslice scoped n (tokens_of_chunks cs) = Some (heap_of n t, [val_of n t]).
+Proof. exact keepalive_end_to_end. Qed.
+Print Assumptions C01_keepalive_end_to_end.
+Theorem C01_keepalive_end_to_end_deferred_partial : forall scoped n t w bs cs r,
+  wf_obj_wide scoped n t = true -> strip_ka w = slice n t -> forallb wf_token w = true -> encode_stream w = Ok bs ->
+  List.concat cs = bs ->
+  dunslice scoped n (tokens_of_chunks cs) = Some r -> r = (heap_of n t, [val_of n t]).
+Proof. exact keepalive_end_to_end_deferred. Qed.
+Print Assumptions C01_keepalive_end_to_end_deferred_partial.
+(* (the hypothesis `strip_ka w = slice n t` is met by every weaving of keepalive groups into the sender's tokens) *)
+Theorem C01_keepalive_weave : forall ts kas, all_ka kas = true -> forallb (fun t => negb (is_ka t)) ts = true ->
+  strip_ka (weave kas ts) = ts.
+Proof. exact strip_weave. Qed.
+Print Assumptions C01_keepalive_weave.
+(* (c) several objects / calls on one connection, and a rejected message that is being discarded: keepalive tokens move neither the
+   discard depth nor the object counter, so the numbering of later references stays in step *)
+Theorem C01_keepalive_list : forall scoped n ts v w, wf_list_wide scoped [] [] n ts = Some v -> strip_ka w = slice_list n ts ->
+  unslice scoped n w = Some (heap_list n ts, vals_list n ts).
+Proof. exact keepalive_list. Qed.
+Print Assumptions C01_keepalive_list.
+Theorem C01_keepalive_discard : forall ts d cnt,
+  discard (strip_ka ts) d cnt = let '(d', cnt', rest) := discard ts d cnt in (d', cnt', strip_ka rest).
+Proof. exact discard_strip_ka. Qed.
+Print Assumptions C01_keepalive_discard.
 
 (* "... or what vocabulary-compression table is in force" *)
 Theorem C01_vocab_transparent : forall tbl ts, NoDup (map snd tbl) -> forallb no_vocab ts = true ->
